@@ -149,6 +149,34 @@ SUITE_ARGS = {
     "aio": ["aio"],
 }
 
+def run_watched(cmd, out_path, mode, idle_limit, stdin=None):
+    """run `cmd` appending its stdout to `out_path`; kill it when the output has not grown for `idle_limit` seconds (every case line
+    is written and flushed before the library is called, so a silent process is inside one library call that does not return).
+    -> (returncode, stderr tail, hung)"""
+    with open(out_path, mode) as f:
+        p = subprocess.Popen(cmd, stdout=f, stderr=subprocess.PIPE, stdin=stdin)
+        last_size, last_change, hung = -1, time.time(), False
+        while True:
+            try:
+                p.wait(timeout=2)
+                break
+            except subprocess.TimeoutExpired:
+                sz = os.path.getsize(out_path)
+                if sz != last_size:
+                    last_size, last_change = sz, time.time()
+                elif time.time() - last_change > idle_limit:
+                    hung = True
+                    p.kill()
+                    p.wait()
+                    break
+        err = p.stderr.read().decode("utf-8", "replace")[-2000:] if p.stderr else ""
+    if hung:
+        with open(out_path, "rb") as f:
+            data = f.read()
+        with open(out_path, "ab") as f:
+            f.write(b"HANG\n" if not data.endswith(b"\n") else b"")
+    return (p.returncode if not hung else -9), err, hung
+
 def run_suite(name, tier, seed, fp):
     """returns dict(trace=path, model=path, crashed=bool, wall=float)"""
     key = hashlib.sha256(f"{name}|{tier}|{seed}|{fp}|{harness_dir()}|{tree_hash([HARNESS_SRC], ('.rs', '.in'))}|{tree_hash([LEAN], ('.lean', '.toml'))}|{tree_hash([os.path.join(VERIF, 'corpus')], ('.txt',))}".encode()).hexdigest()[:20]
@@ -160,13 +188,14 @@ def run_suite(name, tier, seed, fp):
     t0 = time.time()
     trace = os.path.join(cdir, "trace.txt")
     model = os.path.join(cdir, "model.txt")
-    with open(trace, "wb") as f:
-        p = subprocess.run([harness_bin()] + SUITE_ARGS[name] + ["--seed", str(seed), "--tier", tier], stdout=f, stderr=subprocess.PIPE, timeout=7200)
-    crashed = p.returncode != 0
+    idle = 180 if tier == "thorough" else 30
+    rc, stderr_tail, hung = run_watched([harness_bin()] + SUITE_ARGS[name] + ["--seed", str(seed), "--tier", tier], trace, "wb", idle)
+    crashed = rc != 0
     # a crash (memory fault, abort) ends the process in the middle of a case: the incomplete last line marks the case;
     # the run is resumed with the next catalog type so that the other types are still covered
     restarts = 0
-    while p.returncode != 0 and restarts < 12 and name != "portable":
+    hangs = 1 if hung else 0
+    while rc != 0 and restarts < 12 and hangs <= 3 and name != "portable":
         with open(trace, "rb") as f:
             data = f.read()
         last = data.rstrip(b"\n").split(b"\n")[-1].decode("utf-8", "replace")
@@ -177,8 +206,10 @@ def run_suite(name, tier, seed, fp):
             with open(trace, "ab") as f:
                 f.write(b"\n")
         restarts += 1
-        with open(trace, "ab") as f:
-            p = subprocess.run([harness_bin()] + SUITE_ARGS[name] + ["--seed", str(seed), "--tier", tier, "--from", str(int(fields[1]) + 1)], stdout=f, stderr=subprocess.PIPE, timeout=7200)
+        rc, stderr_tail2, hung2 = run_watched([harness_bin()] + SUITE_ARGS[name] + ["--seed", str(seed), "--tier", tier, "--from", str(int(fields[1]) + 1)], trace, "ab", idle)
+        stderr_tail = stderr_tail or stderr_tail2
+        hung = hung or hung2
+        hangs += 1 if hung2 else 0
     # corpus of recorded cases (witnesses of known findings and of repaired defects) runs with every suite
     cp = os.path.join(VERIF, "corpus", name + ".txt")
     if os.path.exists(cp) and not crashed:
@@ -189,7 +220,7 @@ def run_suite(name, tier, seed, fp):
         crashed = crashed or pc.returncode != 0
     with open(trace, "rb") as fi, open(model, "wb") as fo:
         p2 = subprocess.run([driver_bin()], stdin=fi, stdout=fo, stderr=subprocess.PIPE, timeout=7200)
-    m = dict(trace=trace, model=model, crashed=crashed, rc=p.returncode, stderr=p.stderr.decode("utf-8", "replace")[-2000:],
+    m = dict(trace=trace, model=model, crashed=crashed, rc=rc, stderr=("the process was killed: no output for %d s (a library call that does not return). " % idle if hung else "") + stderr_tail,
              driver_rc=p2.returncode, wall=round(time.time() - t0, 2), suite=name)
     json.dump(m, open(meta, "w"))
     # keep the cache small
@@ -212,8 +243,8 @@ def parse_rhs(r):
         r = r[: -len(" OUTSIDE-WRITTEN")]
     if r == "":
         d["cls"] = "MEMFAULT"
-    elif r.startswith("PANIC"):
-        d["cls"] = "PANIC"
+    elif r.startswith("PANIC") or r == "HANG":
+        d["cls"] = "PANIC"; d["hang"] = r == "HANG"
     elif r.startswith("FAULT"):
         d["cls"] = "FAULT"; d["fault"] = r
     elif r.startswith("err "):
@@ -244,6 +275,8 @@ def parse_emp(r):
     toks = r.split(" ") if r else []
     if not toks:
         d["cls"] = "MEMFAULT"; return d
+    if r == "HANG":
+        d["cls"] = "PANIC"; d["hang"] = True; d["res"] = "HANG"; return d
     d["raw_tail"] = " ".join(t for t in toks[2:] if "=" not in t)
     d["res"] = toks[0]
     d["cls"] = toks[0].split(":")[0]
@@ -730,6 +763,8 @@ def parse_io(r):
     d = {"cls": "io"}
     if r == "":
         d["cls"] = "MEMFAULT"; return d
+    if r == "HANG":
+        d["cls"] = "PANIC"; d["hang"] = True; d["outs"] = ["HANG"]; return d
     toks = r.split(" ")
     d["outs"] = toks[0].split(",") if toks[0] not in ("-", "") else []
     for tok in toks[1:]:
